@@ -50,9 +50,10 @@ TNext ==
         ELSE LET m2 == Step(m, e) IN
              /\ m' = m2
              /\ sid' = sid
-             /\ IF m.bad = "" /\ m2.bad # ""
-                THEN /\ nbad' = nbad + 1
-                     /\ PrintT(ToJson([viol |-> m2.bad, id |-> sid, line |-> l, t |-> e.t]))
+             /\ LET fresh == m2.bad \ m.bad IN
+                IF fresh # {}
+                THEN /\ nbad' = nbad + Cardinality(fresh)
+                     /\ \A c \in fresh : PrintT(ToJson([viol |-> c, id |-> sid, line |-> l, t |-> e.t]))
                 ELSE nbad' = nbad
      /\ l' = l + 1
 
